@@ -95,28 +95,30 @@ func cfgWithConflicts(c dbh.Config, longLived bool) dbh.Config {
 
 // warmUp commits n single-key transactions in a side namespace so that the oracle has
 // history (read timestamps > 0) before the history under test starts.
-func warmUp(e *Env, kind int) error {
+func warmUp(e *Env, kind int) ([]Finding, error) {
 	n := kind
 	if kind == 3 {
 		n = 1
 	}
+	var finds []Finding
 	for i := 0; i < n; i++ {
 		e.NS = fmt.Sprintf("~warm%d/", i)
 		x, err := Run(e, []Step{{1, "begin"}, {1, "set:w"}, {1, "commit"}})
 		if err != nil {
-			return err
+			return nil, err
 		}
-		if len(x.Findings) > 0 {
-			return fmt.Errorf("warm-up transaction failed: %v", x.Findings[0])
+		for _, f := range x.Findings { // the implementation fails on the trivial prelude already
+			f.Sig = "prelude " + f.Sig
+			finds = append(finds, f)
 		}
 	}
 	if kind == 3 {
 		e.NS = "~warmro/"
 		if _, err := Run(e, []Step{{1, "begin"}, {1, "discard"}}); err != nil {
-			return err
+			return nil, err
 		}
 	}
-	return nil
+	return finds, nil
 }
 
 // RunFresh executes h on a brand-new DB.
@@ -126,11 +128,16 @@ func (d *Driver) RunFresh(cfg dbh.Config, warm int, h []Step) (*Exec, error) {
 		return nil, err
 	}
 	defer d.closeEnv(e)
-	if err := warmUp(e, warm); err != nil {
+	pre, err := warmUp(e, warm)
+	if err != nil {
 		return nil, err
 	}
-	e.NS = "n/"
-	return Run(e, h)
+	e.NS = "n00000/" // same length as the namespaces of the long-lived mode (sizes depend on key length)
+	x, err := Run(e, h)
+	if x != nil {
+		x.Findings = append(pre, x.Findings...)
+	}
+	return x, err
 }
 
 func (d *Driver) runNS(name string, cfg dbh.Config, h []Step) (*Exec, error) {
@@ -187,6 +194,13 @@ func (d *Driver) Execute(f *Family, h []Step) {
 	p.Add("reads", int64(x.Reads))
 	if x.ConcurrentCommit {
 		p.Add("histories_with_concurrent_commit", 1)
+	}
+	for _, o := range x.Outcome {
+		if i := strings.Index(o, ".commit="); i >= 0 {
+			p.Add("verdict:"+o[i+1:], 1)
+		} else if i := strings.Index(o, ".set=!"); i >= 0 {
+			p.Add("verdict:"+o[i+1:], 1)
+		}
 	}
 	p.Mark("outcomes", strings.Join(x.Outcome, " "))
 	if p.Counters["histories"]%997 == 1 {
@@ -306,4 +320,33 @@ func SortedKeys(m map[string]int64) []string {
 	}
 	sort.Strings(out)
 	return out
+}
+
+// EnumerateList runs the histories produced by gen (a hand-built family) that belong to
+// this shard.
+func (d *Driver) EnumerateList(f *Family, sh vr.ShardInfo, expired func() bool, gen func(emit func(h []Step))) {
+	item := 0
+	stop := false
+	gen(func(h []Step) {
+		item++
+		if stop || !sh.Owns(item) {
+			return
+		}
+		if expired() {
+			stop = true
+			d.P.TimedOut = true
+			return
+		}
+		d.Execute(f, h)
+	})
+	d.Close()
+}
+
+// H builds a history from "T.op" words.
+func H(words ...string) []Step {
+	h, err := Parse(strings.Join(words, " "))
+	if err != nil {
+		panic(err)
+	}
+	return h
 }
